@@ -98,6 +98,29 @@ def run_cli(root: Path, strategy: Optional[str] = "client", config: Optional[Dic
                      stdout=out, traceback=tb, package_dir=pkg_dir, reported_files=reported, config=config)
 
 
+def decoy_generations(root: Path, sdl: str, queries: Optional[str], other: Optional[Tuple[str, str]] = None, config: Optional[Dict[str, Any]] = None) -> int:
+    """History for the generation that follows: in THIS interpreter, generate the same inputs under the default configuration (nothing configured: no scalars,
+    no plugins, default names) and - if given - another project's inputs, each in its own directory under root/_decoys. Outcomes are ignored: only what
+    the generator may have kept in module-level or class-level state matters. -> number of decoy generations that ran to completion."""
+    import warnings
+    done = 0
+    jobs = [("same_inputs_default_config", sdl, queries)]
+    if other is not None:
+        jobs.append(("other_inputs_default_config", other[0], other[1]))
+    for name, sdl_, queries_ in jobs:
+        d = root / "_decoys" / name
+        d.mkdir(parents=True, exist_ok=True)
+        write_case(d, sdl_, queries_, dict(config or {}))
+        with warnings.catch_warnings():
+            warnings.simplefilter("ignore")
+            try:
+                if run_cli(d, "client", dict(config or {})).ok:
+                    done += 1
+            except BaseException:  # noqa: BLE001
+                pass
+    return done
+
+
 def import_package(root: Path, name: str = "graphql_client"):
     p = str(root)
     if p not in sys.path:
